@@ -66,11 +66,13 @@ static void __attribute__((noinline)) probed(pth_t * p, void * fn, void * a1, vo
   mv_progress();
 }
 
-static void * child_body(void * a) { int k = (int)(intptr_t)a; for (int i = 0; i < k; i++) { myth_yield(); mv_progress(); } return (void *)(intptr_t)(k + 100); }
+static const size_t c03_cd[4] = { 0, 12, 256, 136 };
+static void * child_body(void * a) { int k = (int)(intptr_t)a; size_t cd = myth_wsapi_get_hint_size(0); mt_cd_verify(cd, "when the child starts"); for (int i = 0; i < k; i++) { myth_yield(); mv_progress(); } mt_cd_verify(cd, "after the child's yields (its own frames overlap it?)"); return (void *)(intptr_t)(k + 100); }
 static struct pstart child_ps[16][MAXPH];
 
 static void * probe_thread(void * a) {
   pth_t p; p.tid = (int)(intptr_t)a; p.rs = 0x9e3779b97f4a7c15ULL * (unsigned long)(p.tid + 1);
+  size_t my_cd = myth_wsapi_get_hint_size(0); mt_cd_verify(my_cd, "when the probe thread starts");
   for (int i = 0; i < G.nph; i++) {
     phase_t * ph = &G.ph[i];
     __sync_fetch_and_add(&G.ran_on[myth_get_worker_num()], 1);
@@ -82,6 +84,7 @@ static void * probe_thread(void * a) {
       ps->align = -1; ps->fn = child_body; ps->arg = (void *)(intptr_t)ph->b;
       myth_thread_attr_init(&at); at.child_first = ph->a;
       if (cstk[ph->c]) myth_thread_attr_setstacksize(&at, cstk[ph->c]); else at.stacksize = 0;
+      mt_cd_attach(&at, c03_cd[(ph->b + ph->c + i) & 3]);
       /* the creating call itself is probed: child-first creation switches into the child */
       unsigned long pat[6], out[6]; for (int k = 0; k < 6; k++) pat[k] = nextpat(&p);
       /* myth_create_ex has 4 arguments: use a small trampoline */
@@ -133,6 +136,7 @@ static void * probe_thread(void * a) {
     }
     op_done();
   }
+  mt_cd_verify(my_cd, "at the end of the probe thread (frames or another stack overlap it?)");
   return 0;
 }
 
@@ -173,6 +177,7 @@ void scen_c03(mt_case * c) {
   myth_thread_t th[16]; static struct pstart ps[16];
   for (int t = 0; t < G.T; t++) {
     myth_thread_attr_t at; myth_thread_attr_init(&at); at.stacksize = 0; at.child_first = (int)rd_below(r, 2);
+    mt_cd_attach(&at, c03_cd[(t + G.nph) & 3]);
     ps[t].align = -1; ps[t].fn = probe_thread; ps[t].arg = (void *)(intptr_t)t;
     Z0(myth_create_ex(&th[t], &at, probe_entry, &ps[t]));
   }
